@@ -1,13 +1,25 @@
 """C13 — alternative spellings of the same rule or word behave identically."""
-import json, os
+import json, os, shutil
 from . import core, suites
+from .c04 import ops_correspondence
 
 NAMES = os.path.join(core.LEAN, "AscaVerif", "Gen", "feat_names.txt")
 
 
 def check(res, thorough):
-    ok_t, ok_b, ok_h = core.prepare(res, "AscaVerif.Props.C13", thorough=thorough, need_driver=False)
+    ok_t, ok_b, ok_h = core.prepare(res, "AscaVerif.Props.C13", thorough=thorough, extra_props=["AscaVerif.Props.C13Lex", "AscaVerif.Props.C13Parse"])
     tier = "thorough" if thorough else "quick"
+    if ok_h and os.path.exists(core.DRIVER_BIN):
+        scratch = core.scratch_dir("c13")
+        try:
+            tv = 0
+            for cmd, minops in (("lex-ops", 30000), ("parse-ops", 30000)):
+                st2, _, _ = ops_correspondence(res, scratch, cmd, tier, cmd, minops, extra_args=[str(res.seed)])
+                res.coverage[cmd] = st2
+                tv += st2.get(cmd.split("-")[0] + ".ops", 0)
+            res.coverage["traces_validated_against_impl"] = tv
+        finally:
+            shutil.rmtree(scratch, ignore_errors=True)
     if ok_h and os.path.exists(NAMES):
         s = suites.run_suite(["c13-spec", tier, str(res.seed), NAMES])
         new = suites.classify(res, "C13", s["findings"], f"asca-harness c13-spec {tier} {res.seed} {NAMES}")
@@ -25,7 +37,8 @@ def check(res, thorough):
                 "spellings, ⟨⟩ vs <>, a random synonym for every feature name (table read from lexer.rs), the same with random spaces inside matrices, two trailing "
                 "comments, injective alpha renaming, variable renumbering; for the word: ' , : ; respellings, ^ for the tie bar, the 20 input aliases, doubled segment "
                 "vs length mark; non-trivial = the rule changes the word")
-    res.assumptions = ["both sides are run on the implementation; the lexer/parser are not ported, so the rule-level equivalences have no theorem yet"]
+    res.assumptions = ["the rule lexer and parser are ported and tied to the code by lex-ops / parse-ops (respelled lines are one of the streams); the token-level "
+                       "equivalences are theorems (Props/C13Lex, C13Parse), that the rest of the parse is then the same is decided by c13-spec on the implementation"]
     return res.finish()
 
 
